@@ -152,21 +152,29 @@ def model_validation(src, tier, seed):
         return out
 
 
-def replay_real(src, module, harness, size, inputs, tag):
+def replay_real(src, module, harness, size, inputs, tag, scripted=False):
     """Replay a counterexample in the real world. Returns (confirmed, report dict)."""
     os.makedirs(os.path.join(ROOT, 'replays'), exist_ok=True)
     case = {'module': module, 'harness': harness, 'size': list(size), 'inputs': inputs}
     digest = hashlib.sha1(json.dumps(case, sort_keys=True).encode()).hexdigest()[:10]
     path = os.path.join(ROOT, 'replays', '%s-%s.json' % (tag, digest))
     json.dump(case, open(path, 'w'), indent=1)
-    r = subprocess.run([PY, os.path.join(ROOT, 'runner', 'replay.py'), '--src', src, path],
-                       capture_output=True, text=True)
-    rep = None
-    for l in r.stdout.splitlines():
-        if l.startswith('REPLAY-RESULT '):
-            rep = json.loads(l[len('REPLAY-RESULT '):])
-    if rep is None:
-        rep = {'error': (r.stdout[-800:] + r.stderr[-1500:])}
+    def once(extra):
+        r = subprocess.run([PY, os.path.join(ROOT, 'runner', 'replay.py'), '--src', src] + extra + [path],
+                           capture_output=True, text=True)
+        rep = None
+        for l in r.stdout.splitlines():
+            if l.startswith('REPLAY-RESULT '):
+                rep = json.loads(l[len('REPLAY-RESULT '):])
+        if rep is None:
+            rep = {'error': (r.stdout[-800:] + r.stderr[-1500:])}
+        return rep
+    rep = once([])
+    if not rep.get('failed') and scripted and any(k.startswith(('stub:', 'ch:stub:')) for k in inputs):
+        # second attempt: real code, real numpy/pandas, the library answers of the counterexample
+        rep2 = once(['--scripted'])
+        rep2['with_real_libraries'] = rep
+        rep = rep2
     case['replay'] = rep
     json.dump(case, open(path, 'w'), indent=1)
     return bool(rep.get('failed')), rep, path
@@ -293,7 +301,7 @@ def main(argv=None):
     for h in harnesses:
         g = agg[h.name]
         for c in g['cex'][:3]:
-            ok, rep, path = replay_real(a.src, pid.lower(), h.name, c['size'], c['inputs'], pid)
+            ok, rep, path = replay_real(a.src, pid.lower(), h.name, c['size'], c['inputs'], pid, scripted=h.scripted)
             c['replay'] = rep
             c['replay_file'] = path
             if ok:
